@@ -48,12 +48,17 @@ prop(
     title="Session activation authenticates the user exactly as configured",
     technique="runtime monitor: reference function over a universe of endpoint / user-token configurations evaluated "
               "next to the real ActivateSession of sessions created through real transports (real OPN per channel "
-              "security, real RSA encrypted passwords and X.509 user-token signatures)",
+              "security, real RSA encrypted passwords and X.509 user-token signatures), on a server with and on a "
+              "server without an application instance certificate / private key",
     rule="universe = 7 user-token sets (anonymous only; three password users, one with an empty password and one with a "
          "non-ASCII password; anonymous + one user; one X.509 user; everything; nothing; a user and a certificate that "
          "other endpoints do not list) x 3 password security policies (unset, Basic128Rsa15, Basic256Sha256) x 5 channel "
          "securities (None, Basic128Rsa15/Sign, Basic256Sha256/SignAndEncrypt, Aes128Sha256RsaOaep/Sign, "
-         "Aes256Sha256RsaPss/SignAndEncrypt) = 105 endpoints of one server. Per endpoint the grid holds: anonymous tokens "
+         "Aes256Sha256RsaPss/SignAndEncrypt) = 105 endpoints of one server, plus a second server with the same users "
+         "whose PKI directory is empty (server_certificate and server_pkey are None) hosting 5 of the sets (anonymous "
+         "only, three password users, anonymous + one user, everything, nothing) x 3 password policies on None/None = 15 "
+         "endpoints; encrypted passwords sent to it are encrypted for a certificate whose key it does not hold. "
+         "Per endpoint the grid holds: anonymous tokens "
          "with 7 policy ids (incl. the null token), 5 undecodable/foreign tokens, for 11 user names (configured, "
          "configured elsewhere, X.509 users' names, unknown, case and blank variants, empty, null) the canonical token "
          "and one field wrong at a time (7 passwords, 9 encodings: canonical/plain/null/empty-alg/unknown-alg/alg-but-plain/"
@@ -61,15 +66,17 @@ prop(
          "extended), X.509 tokens over 6 certificates x own/other key, 11 signature variants, 5 policy ids, the same "
          "tokens against an already activated session with the current and the previous nonce, a correct activation "
          "after a refused one, and activate - replay first - activate - replay first - replay previous for three users x "
-         "four encodings. Quick runs the core shapes in full and a seeded quarter of the rest plus seeded random "
+         "four encodings (the server without a certificate gets the canonical X.509 tokens only). Quick runs the core shapes in full and a seeded quarter of the rest plus seeded random "
          "multi-step cases; thorough runs the whole grid. One evaluation = one ActivateSession judged; distinct = "
          "(token kind, endpoint, step, field values)",
     design_ref="4 C20",
     level_text="For every ActivateSession the reference function over the universe tables says deny, allow or either. "
                "Deny (anonymous where not listed, user not listed for the endpoint, password that matches under no "
                "reading, password encrypted for another nonce than the session's current one or replayed after an "
-               "activation, certificate not listed / unusable, token signature by another key, damaged, or over other "
-               "data than server certificate + current nonce) answered Good is a violation. Allow is claimed only for "
+               "activation, any RSA-encrypted password on the server without a private key, certificate not listed / "
+               "unusable, token signature by another key, damaged, or over other "
+               "data than server certificate + current nonce) answered Good is a violation, as is a panic inside "
+               "ActivateSession. Allow is claimed only for "
                "tokens built exactly as the repository's own client builds them (policy from the endpoint description the "
                "server returned, make_user_name_identity_token / create_signature_data, current nonce) with the right "
                "credentials; a ServiceFault for those is a violation with its own signature class "
@@ -81,7 +88,9 @@ prop(
                "restricted to what ServerConfig::is_valid accepts, so a password user without any password entry does "
                "not occur; two users with the same name are not generated. The client signature of ActivateSession on "
                "secured channels is always correct. X.509 tokens on a None channel are judged for wrongful acceptance "
-               "only while the session nonce is empty (the repository's client cannot sign an empty nonce).",
+               "only while the session nonce is empty (the repository's client cannot sign an empty nonce). On the server "
+               "without a certificate no X.509 token is ever required to be accepted (there is nothing its signature could "
+               "be made over); refusals required there are the same as elsewhere.",
     shards={"quick": 16, "thorough": 16},
     timeout={"quick": 900, "thorough": 5400},
     min_distinct=500,
